@@ -500,7 +500,14 @@ func (x *Exec) Run(lines []string) {
 			if v == "V panic" {
 				x.Findings = append(x.Findings, finding{Clause: "C17-validate-panic", Detail: "ValidateBasic panicked", Cmd: l})
 			}
-			if want, known := specAccepts(f[1], pm.Args); known && v != "V panic" && len(x.Findings) < 40 {
+			want, known := specAccepts(f[1], pm.Args)
+			switch m := pm.Msg.(type) {
+			case *didtypes.MsgCreateDIDRequest:
+				want, known = specDocAccepts(m.Did, m.Document, m.VerificationMethodId, m.Signature, m.FromAddress), true
+			case *didtypes.MsgUpdateDIDRequest:
+				want, known = specDocAccepts(m.Did, m.Document, m.VerificationMethodId, m.Signature, m.FromAddress), true
+			}
+			if known && v != "V panic" && len(x.Findings) < 40 {
 				if got := v == "V ok"; got != want {
 					x.Findings = append(x.Findings, finding{Clause: "C16-limits", Detail: fmt.Sprintf("stateless validation answers %q but the published limits say accept=%v", v, want), Cmd: l})
 				}
